@@ -50,6 +50,16 @@ def named_schedules(seed, thorough=False):
                                                          "s": [["rn", 1200 + 60 * n], ["wn", 60, n]]}]),
                         "seed": seed + k, "limit": 900, "expect": "complete"})
             k += 1
+    # one Write of exactly k full fragments (and one byte either side): the split must not round a fragment up past the MTU
+    for mtu in mtus:
+        room = mtu - 88
+        sizes = [k_ * room + d for k_ in (2, 3, 5, 16) for d in (-1, 0, 1)]
+        out.append({"id": "split/mtu%d-whole-fragments" % mtu, "transport": "udp", "mtu": mtu, "user": users[k % len(users)],
+                    "cpat": sessions.pattern(pad_mid=0, pad_end=0), "spat": sessions.pattern(pad_mid=0, pad_end=0),
+                    "sessions": sessions.keep_open([{"c": [["w", 10]] + [["w", x] for x in sizes] + [["rn", sum(sizes)]],
+                                                     "s": [["rn", 10 + sum(sizes)]] + [["w", x] for x in sizes]}]),
+                    "seed": seed + k, "limit": 900, "expect": "complete"})
+        k += 1
     # low entropy modes and explicit maxima, sizes around the fragment boundary
     confs = [(None, None), (0, 0), (1, 255), (255, 1), (128, 128), (255, 255)]
     for mi, mode in enumerate(sessions.LE_MODES):
@@ -107,6 +117,16 @@ def run(ctx):
         ctx.coverage["distinct_nontrivial"] += len(scen)
         trace = sessions.check_traces(ctx, scen, wd, "c14", INVS, timeout=3000)
         sessions.sample_trace(ctx, trace, None, n=12)
+        # clients built from a profile (command-line client, apis/client) honour the profile's MTU
+        pout = os.path.join(wd, "profile.ndjson")
+        rc, log, _ = vlib.go_test("./c14/", "TestProfileMTU$", env={"VERIF_OUT": pout}, timeout=900)
+        if rc != 0 or not os.path.exists(pout):
+            raise Inconclusive("driver TestProfileMTU failed:\n" + log[-3000:])
+        ctx.coverage["evaluations"] += len(vlib.read_ndjson(pout))
+
+        def dprof(rec, inv):
+            return ("%s: a client built from a profile with MTU %s emitted a datagram of %d bytes" % (inv, rec["mtu"] or "unset (1400)", rec["longest"]), "C14:%s" % inv)
+        vlib.validate_records(ctx, "Trace_ProfileMTU", "Trace_ProfileMTU", pout, ("ProfileFitsMTU",), dprof, wd)
     finally:
         shutil.rmtree(wd, ignore_errors=True)
 
